@@ -25,6 +25,7 @@ def tohex (b : Bytes) : String :=
 
 /-- split "op a b c => obs" into (["op","a","b","c"], "obs") -/
 def splitLine (l : String) : List String × String :=
+  let l := if l.endsWith " =>" then l ++ " " else l
   match l.splitOn " => " with
   | [lhs] => (lhs.splitOn " " |>.filter (· ≠ ""), "")
   | lhs :: rest => (lhs.splitOn " " |>.filter (· ≠ ""), " => ".intercalate rest)
